@@ -435,6 +435,8 @@ class Body:
         self._pdom = None
         self._defs = None
         self._reach = {}
+        self._cl = None
+        self._forced = {}
 
     # ---- identity
     def is_derived(self):
@@ -491,9 +493,11 @@ class Body:
             k = t["t"]
             if k == "goto":
                 succ[i].append(t["target"])
-            elif k == "switch" and self._const_discr(b, t) is not None:
-                # constant condition (cfg!(debug_assertions) etc.): only the taken edge exists
-                v = self._const_discr(b, t)
+            elif k == "switch" and self._const_discr2(b, t) is not None:
+                # constant condition (cfg!(debug_assertions), a `match` on an enum value that is a literal
+                # at this point — typically a direction / mode parameter of a helper spliced into its caller):
+                # only the taken edge exists
+                v = self._const_discr2(b, t)
                 tgt = t["otherwise"]
                 for av, tb in t["arms"]:
                     if int(av) == v:
@@ -520,11 +524,98 @@ class Body:
                     usucc[i].append(t["unwind"])
         self._succ = succ
         self._usucc = usucc
+        # blocks that cannot be reached from the entry (arms of a pruned constant switch) have no say in what
+        # reaches a join: they are not predecessors of anything
+        live = {0}
+        todo = [0]
+        while todo:
+            x = todo.pop()
+            for y in succ[x] + usucc[x]:
+                if y not in live:
+                    live.add(y)
+                    todo.append(y)
         pred = [[] for _ in range(n)]
         for i, ss in enumerate(succ):
+            if i not in live:
+                continue
             for s in ss:
                 pred[s].append(i)
         self._pred = pred
+        self._live = live
+
+    def _const_locals(self):
+        """locals that hold one known integer: exactly one definition, which is an integer literal, a literal
+        unit variant of an enum (value = its discriminant), a copy of such a local, or the discriminant of one"""
+        if getattr(self, "_cl", None) is not None:
+            return self._cl
+        defs = {}
+        multi = set()
+        for blk in self.blocks:
+            for st in blk["stmts"]:
+                if st["s"] == "assign" and not st["pl"]["p"]:
+                    l = st["pl"]["l"]
+                    if l in defs:
+                        multi.add(l)
+                    defs[l] = st["rv"]
+                elif st["s"] == "assign":
+                    multi.add(st["pl"]["l"])
+            t = blk["term"]
+            if t.get("t") == "call" and "dest" in t:
+                multi.add(t["dest"]["l"])
+            if t.get("t") == "call":
+                for a_ in t.get("args", []):
+                    pass
+        # a local whose address is taken mutably may change behind our back
+        for blk in self.blocks:
+            for st in blk["stmts"]:
+                if st["s"] == "assign" and st["rv"]["rv"] in ("ref", "rawptr") and st["rv"].get("bk") in ("mut", "Mut"):
+                    multi.add(st["rv"]["pl"]["l"])
+        for l in range(1, self.arg_count + 1):
+            multi.add(l)
+        known = {}
+        enum_discr = {}
+        for p, a_ in self.facts.adts.items():
+            if a_["kind"] == "Enum":
+                enum_discr[p] = {v["name"]: int(v["discr"]) for v in a_["variants"] if "discr" in v}
+        for _ in range(4):
+            changed = False
+            for l, rv in defs.items():
+                if l in multi or l in known:
+                    continue
+                v = None
+                if rv["rv"] == "use":
+                    op = rv["op"]
+                    if op["k"] == "const" and "int" in op:
+                        v = ("int", int(op["int"]))
+                    elif op["k"] == "const" and op.get("variant") and op.get("ty") in enum_discr and op["variant"] in enum_discr[op["ty"]]:
+                        v = ("enum", enum_discr[op["ty"]][op["variant"]])
+                    elif op["k"] in ("copy", "move") and not op["pl"]["p"] and op["pl"]["l"] in known:
+                        v = known[op["pl"]["l"]]
+                elif rv["rv"] == "agg" and rv.get("ak") == "adt" and not rv.get("ops") and rv.get("adt") in enum_discr and rv.get("variant") in enum_discr[rv["adt"]]:
+                    v = ("enum", enum_discr[rv["adt"]][rv["variant"]])
+                elif rv["rv"] == "discr" and not rv["pl"]["p"] and rv["pl"]["l"] in known and known[rv["pl"]["l"]][0] == "enum":
+                    v = ("int", known[rv["pl"]["l"]][1])
+                if v is not None:
+                    known[l] = v
+                    changed = True
+            if not changed:
+                break
+        self._cl = known
+        return known
+
+    def _const_discr2(self, blk, t):
+        v = self._const_discr(blk, t)
+        if v is not None:
+            return v
+        for bb_, fv in self._forced.items():
+            if self.blocks[bb_]["term"] is t:
+                return fv
+        d = t["discr"]
+        if d["k"] in ("copy", "move") and not d["pl"]["p"]:
+            k = self._const_locals().get(d["pl"]["l"])
+            if k is not None and k[0] == "int":
+                return k[1]
+        return None
 
     @staticmethod
     def _const_discr(blk, t):
@@ -544,14 +635,57 @@ class Body:
             return val
         return None
 
+    def _ensure_cfg(self):
+        if self._succ is not None:
+            return
+        self._build_cfg()
+        if getattr(self, "_refining", False) or getattr(self, "_refined", False):
+            return
+        # second look at the remaining switches: a discriminant read through a borrow (a closure capturing a
+        # `mode` / `direction` value that is a literal here) is a constant too — resolve it with the expression
+        # machinery on the first CFG, then rebuild
+        self._refining = True
+        try:
+            for _round in range(2):
+                forced = {}
+                enum_discr = {p: {v["name"]: int(v["discr"]) for v in a_["variants"] if "discr" in v} for p, a_ in self.facts.adts.items() if a_["kind"] == "Enum"}
+                for bb in sorted(self._live):
+                    t = self.blocks[bb]["term"]
+                    if t.get("t") != "switch" or bb in self._forced or self._const_discr2(self.blocks[bb], t) is not None:
+                        continue
+                    try:
+                        e = self.expr_of_operand(t["discr"], Site(bb, None))
+                    except Exception:
+                        continue
+                    if e.k != "discr":
+                        continue
+                    x = e.a[0].strip()
+                    v = None
+                    if x.k == "text" and x.x.get("variant") and x.x.get("ty", "").lstrip("&") in enum_discr:
+                        v = enum_discr[x.x["ty"].lstrip("&")].get(x.x["variant"])
+                    elif x.k == "agg" and x.x.get("ak") == "adt" and not x.a and x.x.get("adt") in enum_discr:
+                        v = enum_discr[x.x["adt"]].get(x.x.get("variant"))
+                    if v is not None:
+                        forced[bb] = v
+                if not forced:
+                    break
+                self._forced.update(forced)
+                self._succ = self._pred = self._dom = self._pdom = self._defs = None
+                self._reach = {}
+                self._cl = None
+                self._build_cfg()
+        finally:
+            self._refining = False
+            self._refined = True
+
     def succs(self, bb):
         if self._succ is None:
-            self._build_cfg()
+            self._ensure_cfg()
         return self._succ[bb]
 
     def preds(self, bb):
         if self._pred is None:
-            self._build_cfg()
+            self._ensure_cfg()
         return self._pred[bb]
 
     def normal_blocks(self):
@@ -792,7 +926,11 @@ class Body:
         if self._defs is None:
             d = defaultdict(list)
             part = defaultdict(list)
+            if self._succ is None:
+                self._ensure_cfg()
             for site, st in self.sites(normal_only=False):
+                if site.bb not in self._live:
+                    continue      # code behind a pruned constant switch defines nothing
                 if site.i is not None:
                     if st["s"] == "assign":
                         pl = st["pl"]
